@@ -32,7 +32,13 @@ use std::io::{BufRead, Write};
 static GLOBAL: alloc::Counting = alloc::Counting;
 
 fn main() {
-    std::panic::set_hook(Box::new(|_| {}));
+    // panics are reported through the case results; the message of the last one is kept for the record
+    std::panic::set_hook(Box::new(|info| {
+        let msg = format!("{}", info);
+        if let Ok(mut g) = LAST_PANIC.lock() {
+            *g = msg.chars().take(400).collect();
+        }
+    }));
     let args: Vec<String> = std::env::args().collect();
     if args.len() < 3 {
         eprintln!("usage: ippverif run|exec <PROP> ...");
@@ -113,6 +119,8 @@ fn main() {
     }
 }
 
+pub static LAST_PANIC: std::sync::Mutex<String> = std::sync::Mutex::new(String::new());
+
 fn run(prop: &str, tier: &str, seed: u64, out: &str, corpus: Option<&str>) {
     std::fs::create_dir_all(out).unwrap();
     let mut lines: Vec<String> = vec![];
@@ -135,7 +143,23 @@ fn run(prop: &str, tier: &str, seed: u64, out: &str, corpus: Option<&str>) {
         }
     }
     let mut r = rng::Rng::new(seed);
-    let info = props::generate(prop, tier, &mut r, &mut lines);
+    // the generators build their messages with the library itself (constructors, `to_bytes`): if it panics there, that is
+    // recorded as the failing case instead of taking the run down without a trace
+    let info = match std::panic::catch_unwind(std::panic::AssertUnwindSafe(|| props::generate(prop, tier, &mut r, &mut lines))) {
+        Ok(i) => i,
+        Err(_) => {
+            let msg = LAST_PANIC.lock().map(|g| g.clone()).unwrap_or_default();
+            // the message being built or encoded when it happened, as a case line that reproduces it under guard
+            let last = text::LAST_BUILT.with(|c| c.borrow().clone());
+            let case = match last {
+                Some(m) => format!("roundtrip {} -", text::show_msg(&m)),
+                None => format!("(while generating the cases of {} with seed {}, after {} lines) the library panicked: {}", prop, seed, lines.len(), msg),
+            };
+            let _ = std::fs::write(format!("{}/current.txt", out), case);
+            let _ = std::fs::write(format!("{}/generation-panic.txt", out), msg);
+            std::process::exit(101);
+        }
+    };
     let mut cases = std::io::BufWriter::new(std::fs::File::create(format!("{}/cases.txt", out)).unwrap());
     let mut implo = std::io::BufWriter::new(std::fs::File::create(format!("{}/impl.out", out)).unwrap());
     let mut oro = std::io::BufWriter::new(std::fs::File::create(format!("{}/oracle.out", out)).unwrap());
